@@ -57,7 +57,7 @@ def sh(cmd, cwd=None, env=None, timeout=None, check=True, capture=True, hang_ok=
 
     def once():
         return subprocess.run(cmd, cwd=cwd, env=env, timeout=timeout, shell=isinstance(cmd, str),
-                              stdout=subprocess.PIPE if capture else None, stderr=subprocess.STDOUT if capture else None, text=True)
+                              stdout=subprocess.PIPE if capture else None, stderr=subprocess.STDOUT if capture else None, text=True, errors="replace")
     p = once()
     if p.returncode not in (0, 4):
         text = p.stdout or ""
